@@ -85,7 +85,14 @@ pub fn lex(kind: &str, input: &[u8]) -> Option<Value> {
         }
         seen_statement = true;
         for tok in t.split(|c| c == ' ' || c == '\t' || c == '\r').filter(|x| !x.is_empty()) {
-            tokens.push(tok.to_string());
+            // a closing brace ends the group token even without a blank after it ("{1}-2 0")
+            match (kind, tok.find('}')) {
+                ("gcnf", Some(i)) if tok.starts_with('{') && i + 1 < tok.len() => {
+                    tokens.push(tok[..=i].to_string());
+                    tokens.push(tok[i + 1..].to_string());
+                }
+                _ => tokens.push(tok.to_string()),
+            }
         }
     }
     let is_int = |s: &str| {
@@ -127,6 +134,38 @@ pub fn lex(kind: &str, input: &[u8]) -> Option<Value> {
         v.clauses.push((tag, lits));
     }
     Some(v)
+}
+
+/// Independent reading of the value lines of a solver log: the whitespace separated tokens of the
+/// lines that start with "v ", up to the first zero. `None` when one of them is not a decimal
+/// integer, when something follows the zero on its line, or when the zero is missing.
+pub fn lex_log_assignment(input: &[u8]) -> Option<Vec<String>> {
+    let text = String::from_utf8_lossy(input);
+    let is_int = |s: &str| {
+        let d = s.strip_prefix('-').unwrap_or(s);
+        !d.is_empty() && d.bytes().all(|b| b.is_ascii_digit())
+    };
+    let mut lits = Vec::new();
+    let mut started = false;
+    for line in text.split('\n') {
+        let Some(rest) = line.strip_prefix("v ") else { continue };
+        started = true;
+        let mut toks = rest.split(|c| c == ' ' || c == '\t' || c == '\r').filter(|x| !x.is_empty());
+        while let Some(t) = toks.next() {
+            if !is_int(t) {
+                return None;
+            }
+            if t.trim_start_matches('-').bytes().all(|b| b == b'0') {
+                return if toks.next().is_none() { Some(lits) } else { None };
+            }
+            lits.push(t.to_string());
+        }
+    }
+    if started {
+        None
+    } else {
+        Some(lits)
+    }
 }
 
 /// Numeric equality of two typed values (decimal strings compared as big numbers).
